@@ -347,7 +347,9 @@ func (u *Unit) freshVal(st *State, t types.Type, hint string) Val {
 	if _, ok := t.Underlying().(*types.Signature); ok {
 		return u.m.tb.Fresh(hint+"_fn", SInt)
 	}
-	return u.freshOfType(hint, t, st.guard)
+	// memory safety: references held by a value obtained in state st denote objects
+	// allocated in st
+	return u.freshOfTypeAt(st, hint, t)
 }
 
 func (u *Unit) inline(fr *Frame, st *State, f *FuncVal, con *Contract, args []Val, pos token.Pos) Val {
